@@ -76,7 +76,10 @@ func fileSets() map[string][]fileSpec {
 		// copyright notices and date lines before, inside and - the last line with any words - after the license
 		// files with very many matches each: 70 / 130 / 300 notice lines (every line a Copyright match)
 		// around a license, and a notice list without any license
-		"many-matches":     {{"NOTICE", manyNotices(70) + mit}, {"AUTHORS", manyNotices(130) + "\n" + bsd + "\n" + manyNotices(3)}, {"THIRD-PARTY", mit + "\n" + manyNotices(300)}, {"names.txt", manyNotices(65)}},
+		"many-matches": {{"NOTICE", manyNotices(70) + mit}, {"AUTHORS", manyNotices(130) + "\n" + bsd + "\n" + manyNotices(3)}, {"THIRD-PARTY", mit + "\n" + manyNotices(300)}, {"names.txt", manyNotices(65)}},
+		// file names that differ by trailing digits, the license starting on lines whose numbers are
+		// such digits and ending on ONE common line (what "name+start" reads the same for)
+		"name-digits":      {{"d1/LICENSE", stretched(mit, 21, 45)}, {"d1/LICENSE2", stretched(mit, 1, 45)}, {"d2/LICENSE", stretched(mit, 11, 45)}, {"d2/LICENSE1", stretched(mit, 1, 45)}, {"d3/COPYING1", stretched(bsd, 12, 60)}, {"d3/COPYING11", stretched(bsd, 2, 60)}, {"d3/COPYING", stretched(bsd, 112, 160)}},
 		"notice-positions": {{"head.txt", "Copyright 2019 First Holder\n" + mit}, {"tail.txt", mit + "\nCopyright 2020 Last Holder\n"}, {"date.txt", mit + "\n\n2020-01-02\n"}, {"tail-blank.txt", mit + "\nCopyright 2021 Somebody\n\n\n"}, {"both.txt", "2001-02-03\n" + bsd + "\nCopyright (c) 2022 Z\n"}},
 		// run with -ignore_paths_re '.*/AUTHORS' (a FILE pattern): only that file is left out, not what
 		// follows it in its directory
@@ -152,7 +155,7 @@ func c19CLI(c *vrep.Ctx) {
 	}
 	sort.Strings(names)
 	if !c.Thorough() {
-		names = []string{"licensed", "unlicensed", "nested", "crlf", "long-line-first", "header-only", "copyright-only", "no-trailing-nl", "identical-twins", "crowd", "latin1", "big-no-trailing-nl", "license-after-64k", "ignore-authors", "notice-positions", "symlinks", "duplicates", "many-matches"}
+		names = []string{"licensed", "unlicensed", "nested", "crlf", "long-line-first", "header-only", "copyright-only", "no-trailing-nl", "identical-twins", "crowd", "latin1", "big-no-trailing-nl", "license-after-64k", "ignore-authors", "notice-positions", "symlinks", "duplicates", "many-matches", "name-digits"}
 	}
 	taskMenu := []string{"1", "2", "16", "default"}
 	c.R.Rule = fmt.Sprintf("the real identify_license binary built from the current tree, over %d file sets (licensed, unlicensed, nested directories, no trailing newline, CRLF, a 70 000-character line, empty file, header-only, copyright-only, two licenses in one file, many files, 1100 files, a tree run with -ignore_paths_re for one file name) x {-headers} x {plain, -json -include_text} x -tasks %v: stdout lines (as a multiset), JSON Text (= lines StartLine..EndLine of the file) and exit status compared with in-process DefaultClassifier().Match on the file bytes; quick tier samples the flag combinations round-robin, thorough runs all; non-trivial = runs that reported at least one line", len(names), taskMenu)
@@ -439,6 +442,25 @@ func manyNotices(n int) string {
 	var sb strings.Builder
 	for i := 0; i < n; i++ {
 		fmt.Fprintf(&sb, "Copyright %d Holder Number %d\n", 1990+i%30, i)
+	}
+	return sb.String()
+}
+
+// stretched returns text behind start-1 filler lines, with blank lines inserted behind its first
+// line so that its last line is line end of the result.
+func stretched(text string, start, end int) string {
+	lines := strings.Split(strings.TrimRight(text, "\n"), "\n")
+	extra := end - (start - 1) - len(lines)
+	if extra < 0 {
+		panic("stretched: text too long")
+	}
+	var sb strings.Builder
+	for i := 1; i < start; i++ {
+		fmt.Fprintf(&sb, "filler line %d\n", i)
+	}
+	sb.WriteString(lines[0] + "\n" + strings.Repeat("\n", extra))
+	for _, l := range lines[1:] {
+		sb.WriteString(l + "\n")
 	}
 	return sb.String()
 }
